@@ -3,6 +3,7 @@
    every run); the theorems below are the contract facts the property names, for every state
    reachable by any operation sequence. *)
 From VP Require Import Base Nonce Store StoreProofs.
+From VPgen Require Import Facts.
 
 (* the state invariant holds in every reachable state *)
 Theorem c12_invariant : forall X E ops, Inv (srun X E s0 ops).
@@ -80,3 +81,9 @@ Example c12_example :
   snd (sstep X E 1006 st (GetNodeBal 1%N)) = RBal {| b_acct := 6%N; b_credit := 0 |} /\
   total st = 4.
 Proof. vm_compute. auto. Qed.
+
+(* the persistent driver conforms to the contract also when its optimistic transactions are run
+   again after a conflict: no value it decodes a stored record into outlives one read (a retried
+   keep-alive restoring the fields of the record it had read first was D31; regenerated fact) *)
+Theorem c12_decode_targets_are_fresh : badger_stale_decode_targets = [].
+Proof. reflexivity. Qed.
